@@ -120,6 +120,13 @@ def _country(ctx, r, rules):
     fields = country_fields(reg, cc)
     undefined = [c for c in acc if c not in fields]
     r_fields.instance({"country": cc, "accepts": acc, "undefined": undefined})
+    # the ranges the table gives for the fields the algorithm reads / fills are those the published algorithm is defined over
+    pinned = NAT.FIELD_POSITIONS.get(cc, {})
+    for c in list(acc) + (["national_checksum_digits"] if cc in NAT.COMPUTE else []):
+        if c in fields and c in pinned and tuple(fields[c][:2]) != tuple(pinned[c]):
+            r_fields.finding(f"{cc}:{c}.range", f"the table places {cc}.{c} at {list(fields[c][:2])}; the algorithm registered for {cc} is defined over BBAN positions "
+                             f"{list(pinned[c])} for that field (a shifted range feeds it other digits of the account number)", None,
+                             witness={"country": cc, "field": c, "table": list(fields[c][:2]), "algorithm": list(pinned[c])})
     if len(undefined) == len(acc):
         r_fields.finding(f"{cc}:accepts", f"{r.cls.qualname} reads {acc} but {cc} publishes none of them", r.where)
         return
